@@ -244,7 +244,22 @@ def main_c03():
                                       {"v": float(pts[i]), "dt": dt, "x": x, "new": float(new[i]), "cell": c})
                         continue
                     if is_syn:
-                        # closed form needs s_inf/tau: recover them from the published tree (C04 checks equality)
+                        # a synapse exposes only its update: the steady state and time constant of the closed form come from the
+                        # specification's tree of the mechanism (Kinetics.tla), evaluated in 40 digits with THIS parameter value
+                        if gate not in kin["gates"]:
+                            continue
+                        from harness import ssa as _ssa
+                        g_ = kin["gates"][gate]
+                        prm = {GATES[gate][3]: pv} if GATES[gate][3] else {}
+                        idx = np.arange(len(pts))[:: max(1, len(pts) // 12)]
+                        for i in idx:
+                            xinf = _ssa.eval_tree(g_["a"], float(pts[i]), prm, mp)
+                            tau = _ssa.eval_tree(g_["b"], float(pts[i]), prm, mp)
+                            want = xinf + (mp.mpf(x) - xinf) * mp.exp(-mp.mpf(dt) / tau)
+                            if abs(mp.mpf(float(new[i])) - want) > 1e-9:
+                                chk.violation({**sig, "what": "update differs from the closed-form solution"},
+                                              {"v": float(pts[i]), "dt": dt, "x": x, "new": float(new[i]), "want": float(want), "param": pv})
+                                break
                         continue
                     # closed form x_inf + (x - x_inf) exp(-dt/tau) from the code's own rates, in 40 digits
                     idx = np.where(rates_ok)[0]
@@ -487,38 +502,48 @@ def main_c14():
                     branch.comp(list(range(k_in))).set(k, np.asarray([val[i % len(val)] for i in range(k_in)]))
                 else:
                     branch.set(k, val)
-        branch.set("v", np.asarray(volts))
-        before = branch.nodes.copy()
-        branch.init_states()
-        after = branch.nodes
-        state_cols = [s for ch in objs for s in ch.channel_states]
-        # write set: only gate columns, only rows with the channel
-        for col in after.columns:
-            a, b = after[col].to_numpy(), before[col].to_numpy()
-            same = (a == b) | ((a != a) & (b != b)) if a.dtype.kind == "f" else (a == b)
-            if col not in state_cols and not np.all(same):
-                chk.violation({"setup": sname, "what": "init_states changed a column that is not a gate", "column": col}, {})
-            if col in state_cols and not np.all(same[k_in:]):
-                chk.violation({"setup": sname, "what": "init_states wrote rows that do not contain the channel", "column": col}, {})
-        for ch in objs:
-            name = ch._name
-            params = {k: jnp.asarray(after[k].to_numpy()[:k_in]) for k in ch.channel_params}
-            states = {k: jnp.asarray(after[k].to_numpy()[:k_in]) for k in ch.channel_states}
-            v = jnp.asarray(np.asarray(volts)[:k_in])
-            for dt in dts:
-                new = ch.update_states(dict(states), dt, v, params)
-                evals += k_in * len(states)
-                for k in states:
-                    s0, s1 = np.asarray(states[k]), np.asarray(new[k])
-                    bad = ~(np.abs(s1 - s0) <= 1e-12)
-                    if bad.any():
-                        i = int(np.where(bad)[0][0])
-                        vi = float(v[i])
-                        singular = any(c["pt"] and abs(float(fr(c["x"])) - vi) < 1e-9 for c in cells)
-                        chk.violation({"channel": type(ch).__name__, "state": k.replace(name, type(ch).__name__),
-                                       "what": "init_states is not a fixed point of the update", "at_singular_voltage": bool(singular and not np.isfinite(s0[i]))},
-                                      {"setup": sname, "v": vi, "dt": dt, "init": float(s0[i]), "after_update": float(s1[i])})
-                        break
+        # two phases: the first init_states() of a fresh module, then - after the module was cast to jax and simulated-from
+        # tables exist - changed parameters and voltages and a SECOND init_states() (it must use the tables as they are now)
+        for phase in ("fresh", "after_cast_and_edit"):
+            if phase == "after_cast_and_edit":
+                branch.to_jax()
+                volts = list(reversed(volts))
+                for k, val in (("vt", -55.25), ("CaT_vx", 4.5), ("Km_taumax", 1500.0)):
+                    if k in branch.nodes.columns:
+                        branch.comp(list(range(k_in))).set(k, np.asarray([val + 1.5 * (i % 3) for i in range(k_in)]))
+            sname_ = sname + ("" if phase == "fresh" else "+history")
+            branch.set("v", np.asarray(volts))
+            before = branch.nodes.copy()
+            branch.init_states()
+            after = branch.nodes
+            state_cols = [s for ch in objs for s in ch.channel_states]
+            # write set: only gate columns, only rows with the channel
+            for col in after.columns:
+                a, b = after[col].to_numpy(), before[col].to_numpy()
+                same = (a == b) | ((a != a) & (b != b)) if a.dtype.kind == "f" else (a == b)
+                if col not in state_cols and not np.all(same):
+                    chk.violation({"setup": sname_, "what": "init_states changed a column that is not a gate", "column": col}, {})
+                if col in state_cols and not np.all(same[k_in:]):
+                    chk.violation({"setup": sname_, "what": "init_states wrote rows that do not contain the channel", "column": col}, {})
+            for ch in objs:
+                name = ch._name
+                params = {k: jnp.asarray(after[k].to_numpy()[:k_in]) for k in ch.channel_params}
+                states = {k: jnp.asarray(after[k].to_numpy()[:k_in]) for k in ch.channel_states}
+                v = jnp.asarray(np.asarray(volts)[:k_in])
+                for dt in dts:
+                    new = ch.update_states(dict(states), dt, v, params)
+                    evals += k_in * len(states)
+                    for k in states:
+                        s0, s1 = np.asarray(states[k]), np.asarray(new[k])
+                        bad = ~(np.abs(s1 - s0) <= 1e-12)
+                        if bad.any():
+                            i = int(np.where(bad)[0][0])
+                            vi = float(v[i])
+                            singular = any(c["pt"] and abs(float(fr(c["x"])) - vi) < 1e-9 for c in cells)
+                            chk.violation({"channel": type(ch).__name__, "state": k.replace(name, type(ch).__name__),
+                                           "what": "init_states is not a fixed point of the update", "at_singular_voltage": bool(singular and not np.isfinite(s0[i]))},
+                                          {"setup": sname_, "v": vi, "dt": dt, "init": float(s0[i]), "after_update": float(s1[i])})
+                            break
     chk.set("evaluations", evals)
     chk.set("distinct_nontrivial", len(all_volts))
     chk.set("voltages", len(all_volts))
@@ -526,7 +551,7 @@ def main_c14():
     chk.set("cells", len(cells))
     chk.set("rule", "voltages = every point cell TLC derives from the traced rate programs in [-120, 60] mV plus seeded interior doubles of "
                     "every interval cell; per setup (HH, all Pospischil channels, shifted parameters, renamed channels; channels inserted "
-                    "in 2/3 of the compartments) init_states() then one update at dt in %s must leave every gate unchanged to 1e-12; "
+                    "in 2/3 of the compartments; each setup a second time after to_jax() and edited parameters / voltages) init_states() then one update at dt in %s must leave every gate unchanged to 1e-12; "
                     "distinct_nontrivial = distinct voltages" % dts)
     chk.sample({"voltages": all_volts[:8], "setup": setups[2][0], "overrides": setups[2][2]})
     chk.assume("fixed point tested through the mechanisms' own update_states", "TLC-derived partition (ExprAbs.tla)")
